@@ -28,6 +28,7 @@
                vadd_r_eq mvmul_r_eq qred_eq vred_eq rotNd_r_eq qinv_n_eq
                apply_parts_r_eq      n2 q<>0 -> apply_parts_r (rot_parts_r q) v =v= mvmul (rot_impl q) v
                apply_parts_inv_r_eq  n2 q<>0 -> apply_parts_r (rot_parts_inv_r q) v =v= mvmul (rot_impl (qinv q)) v
+               rot_n_eq, close_rot_spec (close_rot compares the rotation matrices rot a, rot b)
    tolerance   close_abs_proper etc.: the boolean comparisons respect ==                      *)
 From Coq Require Import QArith Qabs Qminmax Qreduction Qfield Bool List Setoid Morphisms Lia Lqa.
 From KV.Model Require Import MQV.
@@ -506,4 +507,24 @@ Qed.
 #[export] Instance apply_parts_r_proper : Proper (eq ==> veq ==> veq) apply_parts_r.
 Proof.
   intros md md' <- a b H. unfold apply_parts_r. cbv zeta. rewrite !mvmul_r_eq, H. reflexivity.
+Qed.
+
+Lemma rot_n_eq q : ~ n2 q == 0 -> rot_n q =m= rot q.
+Proof.
+  intros NZ. unfold rot_n. cbv zeta. unfold meq. cbn [m00 m01 m02 m10 m11 m12 m20 m21 m22].
+  pose proof (rotNd_r_eq (n2_r q) q) as H. unfold meq in H. decompose [and] H. clear H.
+  repeat match goal with H : _ == _ |- _ => rewrite H; clear H end.
+  rewrite !n2_r_eq. unfold rotNd, rot. cbv zeta. cbn [m00 m01 m02 m10 m11 m12 m20 m21 m22].
+  set (n := n2 q) in *. clearbody n. conj; field; assumption.
+Qed.
+(* close_rot is a statement about the rotation matrices *)
+Lemma close_rot_spec tol a b : ~ n2 a == 0 -> ~ n2 b == 0 ->
+  close_rot tol a b = close_mat tol 1 (rot a) (rot b).
+Proof.
+  intros Ha Hb. unfold close_rot.
+  assert (Za : Qeq_bool (n2_r a) 0 = false).
+  { destruct (Qeq_bool (n2_r a) 0) eqn:E; [|reflexivity]. apply Qeq_bool_iff in E. rewrite n2_r_eq in E. contradiction. }
+  assert (Zb : Qeq_bool (n2_r b) 0 = false).
+  { destruct (Qeq_bool (n2_r b) 0) eqn:E; [|reflexivity]. apply Qeq_bool_iff in E. rewrite n2_r_eq in E. contradiction. }
+  rewrite Za, Zb. cbn [negb andb]. rewrite (rot_n_eq a Ha), (rot_n_eq b Hb). reflexivity.
 Qed.
